@@ -25,6 +25,8 @@ pub enum Repr {
     Rescaled(String),
     /// AffineG::from_jacobian then From<AffineG>
     AffineRt,
+    /// rescaled so that the Jacobian X (which = 0) or Y (which = 1) coordinate equals a constant
+    AimCoord { which: u8, target: String },
 }
 
 impl Repr {
@@ -35,6 +37,7 @@ impl Repr {
             Repr::Sum(_) => "sum",
             Repr::Rescaled(_) => "rescaled",
             Repr::AffineRt => "affine_rt",
+            Repr::AimCoord { .. } => "aim_coord",
         }
     }
 }
@@ -92,6 +95,10 @@ fn make_repr<G: LibG>(k: &BigUint, from_x: &Option<FromX>, repr: &Repr) -> G {
         }
         Repr::Rescaled(lam) => base.rescale(&unhex(lam)).unwrap_or(base),
         Repr::AffineRt => base.affine_rt().unwrap_or(base),
+        Repr::AimCoord { which, target } => {
+            let t = from_be(&unhex(target)) % model::q();
+            base.aim(*which, &t).and_then(|lam| base.rescale(&lam)).unwrap_or(base)
+        }
     }
 }
 
@@ -909,7 +916,9 @@ fn build_g1(c: &Cand) -> Option<((Q, Q), bool)> {
         }
         Cand::G1WrongB { x, b } => {
             let mut x = Q::new(from_be(&unhex(x)));
-            let bb = Q::from_u64(*b);
+            // b < 100: that constant; b >= 100: 5 * zeta^(b-100), zeta a primitive 6th root of unity
+            // (the quadratic, cubic and sextic twists of the curve itself)
+            let bb = if *b >= 100 { Q::from_u64(5).mul(&Q(sixth_root_pow((*b - 100) as u32))) } else { Q::from_u64(*b) };
             loop {
                 let rhs = x.sqr().mul(&x).add(&bb);
                 if let Some(y) = rhs.sqrt() {
@@ -961,6 +970,21 @@ fn build_g1(c: &Cand) -> Option<((Q, Q), bool)> {
             Some(((x, y), ok))
         }
         _ => None,
+    }
+}
+
+/// zeta^i for zeta a primitive 6th root of unity in Fq (q = 1 mod 6)
+fn sixth_root_pow(i: u32) -> BigUint {
+    let q = model::q();
+    let e = (q - 1u32) / 6u32;
+    let mut g = BigUint::from(2u32);
+    loop {
+        let z = g.modpow(&e, q);
+        // primitive: z^3 = -1 and z^2 != 1
+        if z.modpow(&BigUint::from(3u32), q) == q - 1u32 && z.modpow(&BigUint::from(2u32), q) != BigUint::one() {
+            return z.modpow(&BigUint::from(i % 6), q);
+        }
+        g += 1u32;
     }
 }
 
@@ -1104,7 +1128,18 @@ pub fn generate9(seed: u64, index: u64) -> Wire9Spec {
                     Cand::G2Sub { k: hk(&mut pr) }
                 }
             }
-            5 => Cand::G2WrongB { seed: hex(&pr.bytes(64)), b: hex(&pr.bytes(64)) },
+            5 => {
+                if pr.chance(1, 2) {
+                    Cand::G2WrongB { seed: hex(&pr.bytes(64)), b: hex(&pr.bytes(64)) }
+                } else {
+                    // b' = 5u * zeta^i (i = 1..5): the other twists of the twist; imaginary part first
+                    let z = sixth_root_pow(1 + pr.below(5) as u32);
+                    let im = (BigUint::from(5u32) * z) % model::q();
+                    let mut b = be32(&im).to_vec();
+                    b.extend_from_slice(&[0u8; 32]);
+                    Cand::G2WrongB { seed: hex(&pr.bytes(64)), b: hex(&b) }
+                }
+            }
             6 => Cand::G2Untwisted { k: hk(&mut pr) },
             7 => Cand::G2YPlus1 { k: hk(&mut pr) },
             8 => Cand::G2XPlus1 { k: hk(&mut pr) },
@@ -1129,7 +1164,7 @@ pub fn generate9(seed: u64, index: u64) -> Wire9Spec {
             }
             12 => Cand::G1YPlus1 { k: hk(&mut pr) },
             13 => Cand::G1XPlus1 { k: hk(&mut pr) },
-            14 | 15 => Cand::G1WrongB { x: hex(&pr.bytes(32)), b: *pr.pick(&[0u64, 1, 2, 3, 4, 6, 7, 10]) },
+            14 | 15 => Cand::G1WrongB { x: hex(&pr.bytes(32)), b: *pr.pick(&[0u64, 1, 2, 3, 4, 6, 7, 10, 101, 102, 103, 104, 105, 101, 102, 104]) },
             16 | 17 => match pr.below(3) {
                 0 => Cand::G1Junk { x: hex(&pr.bytes(32)), y: hex(&pr.bytes(32)) },
                 1 => {
@@ -1351,6 +1386,15 @@ pub fn generate10(seed: u64, index: u64) -> Wire10Spec {
         ops.push(Repr::Rescaled(gen_lambda(&mut pr, g)));
     }
     ops.push(Repr::AffineRt);
+    {
+        let q = model::q();
+        let t = match pr.below(5) {
+            0 | 1 => BigUint::one(),
+            2 => q - 1u32,
+            _ => crate::world_grp::special_fq(&mut pr),
+        };
+        ops.push(Repr::AimCoord { which: pr.below(2) as u8, target: hex(&be32(&t)) });
+    }
     let from_x = if g == Grp::G1 && pr.chance(1, 4) { Some(boundary_x(&mut pr)) } else { None };
     let interfere = pr.chance(1, 3);
     Wire10Spec { g, k: hex(&be32(&k)), from_x, interfere, budget: DEFAULT_BUDGET, ops }
